@@ -155,7 +155,7 @@ PROPS = {
         'modules': ['SE.Props.C18', 'SE.Gen.TieDeps', 'SE.Gen.TieSync'],
         'streams': [{'component': 'frame', 'confirm': True, 'note_kinds': {'frame'}}, {'component': 'udpq', 'confirm': True},
                     {'component': 'tcpconc', 'confirm': True}, {'component': 'framerelay', 'confirm': True},
-                    {'component': 'binary', 'confirm': True, 'seed_off': 300}],
+                    {'component': 'binary', 'confirm': True, 'seed_off': 300}, {'component': 'binframe', 'confirm': True}],
         'level': 'proof',
         'trusted_base': ["bufio.Reader.ReadLine (4096-byte buffer) modelled from the Go standard library source at the level of buffer + chunks", "the kernel delivers loopback datagrams intact and TCP bytes in order; real TCP segmentation is whatever the kernel does with the generated writes", "goroutine scheduling of reader/processor is in the model as an arbitrary operation sequence; concurrent TCP connections are modelled as independent per-connection runs, justified by the regenerated fact that listener methods write no receiver field (SE.Gen.Tie.listeners_keep_no_state) and sampled by the tcpconc stream"],
         'assumptions': [],
